@@ -433,6 +433,10 @@ def thread_api(c):
     c.ensure('stop-no-exception', 'raised is None')
     c.ensure('terminate-queued-last', "tuple(t._queue.queue) == ((vx, vy, vz, yaw), 'terminate')")
     c.ensure('joined-after-terminate', "calls('thread:') == ('thread:_SetPointThread.join',) and all(is_same(e[1][0], t) for e in sent('thread:_SetPointThread.join')) and len(calls('cf.')) == 0")
+    # "no setpoints streamed afterwards": stop() may only return once the thread has ended, however long its current transmission takes -
+    # a join with a time limit returns while a thread that is held up in send_hover_setpoint is still going to send
+    c.ensure('stop-waits-for-the-thread-without-a-time-limit',
+             "all(len(e[1]) == 1 and e[2].get('timeout') is None for e in sent('thread:_SetPointThread.join'))")
 
 
 def _thread_run_events(n, thorough=False):
